@@ -352,3 +352,133 @@ Proof.
   right. eexists. reflexivity.
 Qed.
 
+
+Lemma index_of_app_other : forall q r lo, q <> r -> index_of q lo = None -> index_of q (lo ++ [r]) = None.
+Proof.
+  intros q r lo Hq. induction lo as [|y lo IH]; intros H; cbn in *.
+  - destruct (r =? q) eqn:E; auto. apply Z.eqb_eq in E. congruence.
+  - destruct (y =? q); [discriminate|]. destruct (index_of q lo); [discriminate|]. rewrite IH; auto.
+Qed.
+
+(* every file is still empty (its rank is neither registered nor matched) or starts with the
+   header naming a prefix of the loop ranks *)
+Definition hclause (st : mstate) (kt : tkey * tstate) : Prop :=
+  t_file (snd kt) = true ->
+  (unknown st (key_rank (fst kt)) -> file_content (snd kt) = [] /\ empty_t (snd kt))
+  /\ ((~ unknown st (key_rank (fst kt))) -> exists i rows,
+        (i < length (m_lo st))%nat /\ file_content (snd kt) = header (m_lo st) i :: rows).
+Definition hinv (st : mstate) : Prop := Forall (hclause st) (m_tr st).
+
+Lemma hinv_push : forall st st' n key d,
+  m_lo st' = m_lo st -> m_rm st' = m_rm st -> (~ unknown st (key_rank key)) ->
+  m_tr st' = map_key (key_eqb key) (push_row n d) (m_tr st) -> hinv st -> hinv st'.
+Proof.
+  intros st st' n key d El Er Hk Et H. unfold hinv. rewrite Et.
+  assert (U : forall q, unknown st' q <-> unknown st q).
+  { intros q. unfold unknown. rewrite El, Er. tauto. }
+  eapply Forall_map_key; [exact H| |].
+  - intros a Ha HP Hf. change (t_file (snd a) = true) in Hf. destruct (Ha Hf) as [_ H2].
+    apply key_eqb_rank' in HP. cbn [fst snd]. split.
+    + intros Hu. exfalso. apply Hk. rewrite <- HP. apply U. exact Hu.
+    + intros _. destruct H2 as (i & rows & Hi & Hc). { rewrite HP. exact Hk. }
+      exists i, (rows ++ [d]). rewrite El. split; auto. rewrite push_content, Hf, Hc. reflexivity.
+  - intros a Ha _ Hf. destruct (Ha Hf) as [H1 H2]. split.
+    + intros Hu. apply H1, U, Hu.
+    + intros Hn. destruct H2 as (i & rows & Hi & Hc). { intros Hu. apply Hn, U, Hu. }
+      exists i, rows. rewrite El. auto.
+Qed.
+
+Lemma hinv_start : forall st st' r i,
+  unknown st r -> (~ unknown st' r) ->
+  (forall q, q <> r -> (unknown st' q <-> unknown st q)) ->
+  (i < length (m_lo st'))%nat ->
+  (forall j, (j < length (m_lo st))%nat ->
+     (j < length (m_lo st'))%nat /\ header (m_lo st') j = header (m_lo st) j) ->
+  m_tr st' = map_key (fun k => key_rank k =? r) (start_trace (header (m_lo st') i)) (m_tr st) ->
+  hinv st -> hinv st'.
+Proof.
+  intros st st' r i Hu Hk U Hi Hh Et H. unfold hinv. rewrite Et.
+  eapply Forall_map_key; [exact H| |].
+  - intros a Ha HP Hf. change (t_file (snd a) = true) in Hf. destruct (Ha Hf) as [H1 _].
+    apply Z.eqb_eq in HP. cbn [fst snd]. split.
+    + intros Hu'. exfalso. apply Hk. rewrite <- HP. exact Hu'.
+    + intros _. destruct H1 as [_ He]. { rewrite HP. exact Hu. }
+      destruct (start_content (header (m_lo st') i) _ He) as [Ca _].
+      exists i, []. rewrite Ca, Hf. auto.
+  - intros a Ha HP Hf. apply Z.eqb_neq in HP. destruct (Ha Hf) as [H1 H2]. split.
+    + intros Hu'. apply H1, U; auto.
+    + intros Hn. destruct H2 as (j & rows & Hj & Hc). { intros Hu'. apply Hn, U; auto. }
+      destruct (Hh j Hj) as [Hj' Hhd]. exists j, rows. rewrite Hhd. auto.
+Qed.
+
+Lemma step_hinv : forall n e st, hinv st -> hinv (step n st e).
+Proof.
+  intros n e st H.
+  destruct e; cbn [step]; unfold add_use, add_use_m, aidx.
+  - destruct (index_of r (m_lo st)) eqn:E1; [exact H|].
+    destruct (lookup_rm r (m_rm st)) eqn:E2; [exact H|].
+    eapply (hinv_start st _ r (length (m_lo st))); cbn [m_lo m_rm m_tr]; auto.
+    + split; auto.
+    + intros [A _]. cbn in A. rewrite index_of_app_self in A by auto. discriminate.
+    + intros q Hq. unfold unknown. cbn [m_lo m_rm]. split; intros [A B]; split; auto.
+      * eapply index_of_app_none; eauto.
+      * apply index_of_app_other; auto.
+    + rewrite app_length. cbn. lia.
+    + intros j Hj. rewrite app_length, header_app by auto. cbn. split; [lia|reflexivity].
+  - destruct (index_of r (m_lo st)) eqn:E1; [|exact H].
+    eapply (hinv_push st _ n (r, kind, label)); cbn [m_lo m_rm m_tr]; auto.
+    intros [A _]. cbn in A. congruence.
+  - destruct (index_of r (m_lo st)); exact H.
+  - destruct (index_of r (m_lo st)); exact H.
+  - exact H.
+  - destruct (index_of r (m_lo st)); exact H.
+  - destruct (index_of r (m_lo st)) eqn:E1; [|exact H].
+    eapply (hinv_push st _ n (r, kind, label)); cbn [m_lo m_rm m_tr]; auto.
+    intros [A _]. cbn in A. congruence.
+  - destruct (index_of r (m_lo st)) eqn:E0; [|exact H].
+    destruct (index_of src (m_lo st)) eqn:E1; [exact H|].
+    destruct (lookup_rm src (m_rm st)) eqn:E2; [exact H|].
+    eapply (hinv_start st _ src n0); cbn [m_lo m_rm m_tr]; auto.
+    + split; auto.
+    + intros [_ B]. cbn in B. rewrite Z.eqb_refl in B. discriminate.
+    + intros q Hq. unfold unknown. cbn [m_lo m_rm lookup_rm].
+      destruct (q =? src) eqn:E; [apply Z.eqb_eq in E; congruence|]. tauto.
+    + eapply index_of_lt; eauto.
+  - destruct (lookup_rm r (m_rm st)) eqn:E1; [|exact H].
+    destruct (index_of z (m_lo st)) eqn:E2; [|exact H].
+    eapply (hinv_push st _ n (r, kind, label)); cbn [m_lo m_rm m_tr with_tr]; auto.
+    intros [_ B]. cbn in B. congruence.
+  - destruct (lookup_rm r (m_rm st)) eqn:E1; [|exact H].
+    destruct (index_of z (m_lo st)) eqn:E2; [|exact H].
+    eapply (hinv_push st _ n (r, kind, label)); cbn [m_lo m_rm m_tr with_tr]; auto.
+    intros [_ B]. cbn in B. congruence.
+  - destruct (lookup_rm r (m_rm st)); [|exact H]. destruct (index_of z (m_lo st)); exact H.
+  - destruct (lookup_rm r (m_rm st)); [|exact H]. destruct (index_of z (m_lo st)); exact H.
+Qed.
+
+Lemma exec_hinv : forall n evs s, hinv s -> hinv (exec n s evs).
+Proof. induction evs as [|e evs IH]; intros s H; cbn; auto. apply IH, step_hinv, H. Qed.
+
+Lemma init_hinv : forall keys f m, hinv (init_state keys f m).
+Proof.
+  intros. unfold hinv. cbn. apply Forall_forall. intros kt Hin.
+  apply in_map_iff in Hin. destruct Hin as (k & <- & _). intros _. cbn. split.
+  - intros _. repeat split; reflexivity.
+  - intros Hn. exfalso. apply Hn. split; reflexivity.
+Qed.
+
+(* every file is empty (its rank is neither a loop rank nor matched to one) or starts with the
+   header that names a prefix of the loop ranks: [x_pos | x <- loop_order[:i+1]] ++
+   loop_order[:i+1] ++ [fiber_pos] *)
+Theorem header_first : forall n keys f m evs k t,
+  let st := exec n (init_state keys f m) evs in
+  In (k, t) (m_tr st) -> t_file t = true ->
+  (unknown st (key_rank k) -> file_content t = [])
+  /\ ((~ unknown st (key_rank k)) -> exists i rows,
+        (i < length (m_lo st))%nat /\ file_content t = header (m_lo st) i :: rows).
+Proof.
+  intros n keys f m evs k t st Hin Hf.
+  pose proof (exec_hinv n evs _ (init_hinv keys f m)) as H.
+  unfold hinv in H. rewrite Forall_forall in H. destruct (H _ Hin Hf) as [H1 H2]. split; auto.
+  intros Hu. apply H1, Hu.
+Qed.
